@@ -43,6 +43,11 @@ def gen_spec(r: apigen.Rng):
                                    "kind": r.pick(["unary", "unary", "unary", "paged", "lro", "server", "client", "bidi", "void"]),
                                    "io": r.pick(all_msgs), "http": r.maybe(0.7), "sig": r.maybe(0.5)})
         spec["files"][-1]["services"].append(svc)
+    if r.maybe(0.25):
+        # a target file that declares ONLY the services (no message, no enum): its request messages live in the previous file
+        f_last = spec["files"][-1]
+        spec["files"].append({"name": "api_service", "pkg": f_last["pkg"], "messages": [], "enums": [], "services": f_last["services"], "svc_only": True})
+        f_last["services"] = []
     tr = r.pick(["grpc", "rest", "grpc+rest"])
     opts = [f"transport={tr}"]
     if r.maybe(0.3): opts.append("rest-numeric-enums")
@@ -83,6 +88,9 @@ def stress_specs():
         files[1]["messages"][0]["collide"] = "nested"; files[1]["messages"][1]["collide"] = "top"; files[2]["messages"][0]["collide"] = "nested"
         files[2]["messages"].append(dict(msg("Zeta"), collide="proto"))
         files[2]["services"] = [{"name": "Library", "methods": methods}, {"name": "Catalog", "methods": second}]
+        if tr == "rest" or tr == "grpc":
+            files.append({"name": "api_service", "pkg": pkg, "messages": [], "enums": [], "services": files[2]["services"], "svc_only": True})
+            files[2]["services"] = []
         out.append({"pkg": pkg, "files": files, "dep_pkg": True, "sub": None, "service_in_sub": False, "service_yaml": tr != "rest",
                     "ads": False, "opts": [f"transport={tr}"] + extra, "transport": tr.split("+")})
     return out
@@ -149,11 +157,12 @@ def build(spec):
                     if prev_msgs: host.field("col_many", "message", repeated=True, type_name=prev_msgs[0])
                 if cl == "nested" and nested is None:
                     mo.field("part", "message", type_name=host)
+        host = built[-1] if (f.get("svc_only") and built) else fl      # where the request/response messages of the services are declared
         for svc in f["services"]:
             so = fl.service(svc["name"])
             for me in svc["methods"]:
                 io = objs[tuple(me["io"])]
-                rq = fl.msg(me["name"] + "Request"); rq.field("name", "string", 1); rq.field("payload", "message", 2, type_name=io)
+                rq = host.msg(me["name"] + "Request"); rq.field("name", "string", 1); rq.field("payload", "message", 2, type_name=io)
                 http = ("post", "/v1/{name=things/*}:" + me["name"].lower()) if me["http"] else None
                 body = "*" if me["http"] else None
                 sigs = ["name"] if me["sig"] else []
@@ -167,8 +176,8 @@ def build(spec):
                     so.method(me["name"], rq, ".google.longrunning.Operation", http=http, body=body, sigs=sigs,
                               lro=(io.full, "google.protobuf.Empty"))
                 elif k == "paged":
-                    prq = fl.msg(me["name"] + "PageRequest"); prq.field("parent"); prq.field("page_size", "int32"); prq.field("page_token")
-                    prs = fl.msg(me["name"] + "PageResponse"); prs.field("items", "message", repeated=True, type_name=io); prs.field("next_page_token")
+                    prq = host.msg(me["name"] + "PageRequest"); prq.field("parent"); prq.field("page_size", "int32"); prq.field("page_token")
+                    prs = host.msg(me["name"] + "PageResponse"); prs.field("items", "message", repeated=True, type_name=io); prs.field("next_page_token")
                     so.method(me["name"], prq, prs, http=("get", "/v1/{parent=things/*}/" + me["name"].lower()) if me["http"] else None)
         files.append(fl); built.append(fl)
         if f["pkg"] == spec["pkg"]:
